@@ -919,9 +919,32 @@ pub fn make(w: &mut World, kind: Kind, fd: Option<usize>, pool: Option<usize>, t
             let fut_ = alloc::a10(|| f.unwrap().metadata());
             (
                 fut(fut_, |o, _| {
-                    io_err(o).map(|m| Val::Meta(m.len(), m.block_size()))
+                    io_err(o).map(|m| {
+                        let secs = |t: std::time::SystemTime| {
+                            t.duration_since(std::time::UNIX_EPOCH).map_or(0, |d| d.as_secs() * 1000 + u64::from(d.subsec_nanos()))
+                        };
+                        Val::Text(format!(
+                            "len={} blk={} file={} dir={} accessed={} created={} modified={}",
+                            m.len(),
+                            m.block_size(),
+                            m.is_file(),
+                            m.is_dir(),
+                            secs(m.accessed()),
+                            secs(m.created()),
+                            secs(m.modified())
+                        ))
+                    })
                 }),
-                exp(|rec, _, _, _| Val::Meta(1000 + u64::from(rec.kid), 4096)),
+                exp(|rec, _, _, _| {
+                    let k = u64::from(rec.kid);
+                    Val::Text(format!(
+                        "len={} blk=4096 file=true dir=false accessed={} created={} modified={}",
+                        1000 + k,
+                        (1_000_000 + k) * 1000 + 7 + 64,
+                        (2_000_000 + k) * 1000 + 7 + 80,
+                        (4_000_000 + k) * 1000 + 7 + 112
+                    ))
+                }),
             )
         }
         Kind::Advise => {
